@@ -114,6 +114,17 @@ def local_form_obs(em, D):
                 bad.append((cname, 'emitted %r differs from local form %r' % (final[cname], rhs), cex))
             elif r != 'unsat':
                 out.append(('local-form', cname, 'unknown', None))
+    # model-level equations (Model.AddGlobalEquation) are emitted under their own names with their own meaning
+    for gvar, geqn, _gdesc in model.GlobalVariables:
+        if gvar not in final:
+            bad.append((gvar, 'model-level equation not emitted among the equations', None))
+            continue
+        try:
+            if not z3.eq(z3.simplify(to_z3(geqn, var) - to_z3(final[gvar], var)), z3.RealVal(0)):
+                bad.append((gvar, 'emitted %r differs from the model-level equation %r' % (final[gvar], geqn), None))
+        except Untranslatable as e:
+            out.append(('local-form', gvar + ': ' + str(e), 'unknown', None))
+        n_eq += 1
     out.append(('local-form', '%d emitted equations equal their sector-local form under canonical qualification' % n_eq,
                 'sat' if bad else 'unsat', {'differences': [(a, b) for a, b, _ in bad[:5]]}))
     return out
